@@ -349,6 +349,11 @@ func blockOnListChangeWorker(
 			unblockCh := ctx.cs.capture()
 			defer func() { discarded = ctx.cs.releaseCapture() }()
 
+			// a connection that was asked to close before the capture got no unblock signal
+			if ctx.cs.client.IsCloseRequested() {
+				return true
+			}
+
 			verifPoint("before-wait", ctx.cs.id, 0)
 			select {
 			case reason := <-unblockCh:
